@@ -169,6 +169,18 @@ fn check_header(h: &MultiEraHeader, era_tag: u64, node: &cborx::Node, src: &[u8]
         "header hash {} but Blake2b-256 over the wire bytes (era rule for tag {era_tag}) is {}", got, hexs(&want));
     pv_ensure!(h.cbor() == node.span(src), format!("c05-header-raw:{}", header_class(h)),
         "header cbor() is not the wire span of the header");
+    // the same header detached from the input buffer (owned copy of value and bytes): still the wire hash
+    let detached: MultiEraHeader<'static> = match h {
+        MultiEraHeader::EpochBoundary(x) => MultiEraHeader::EpochBoundary(std::borrow::Cow::Owned((**x).clone().to_owned())),
+        MultiEraHeader::Byron(x) => MultiEraHeader::Byron(std::borrow::Cow::Owned((**x).clone().to_owned())),
+        MultiEraHeader::ShelleyCompatible(x) => MultiEraHeader::ShelleyCompatible(std::borrow::Cow::Owned((**x).clone().to_owned())),
+        MultiEraHeader::BabbageCompatible(x) => MultiEraHeader::BabbageCompatible(std::borrow::Cow::Owned((**x).clone().to_owned())),
+    };
+    let got2 = detached.hash();
+    pv_ensure!(got2.as_ref() == want, format!("c05-header-hash:{}:detached-copy", header_class(h)),
+        "hash of the header after to_owned() is {} but Blake2b-256 over the wire bytes (era rule for tag {era_tag}) is {}", got2, hexs(&want));
+    pv_ensure!(detached.cbor() == node.span(src), format!("c05-header-raw:{}:detached-copy", header_class(h)),
+        "cbor() of the header after to_owned() is not the wire span of the header");
     let recomputed = match h {
         MultiEraHeader::EpochBoundary(x) => x.compute_hash(),
         MultiEraHeader::Byron(x) => x.compute_hash(),
